@@ -215,7 +215,7 @@ def readerThread (k : Nat) : STh := { ops := List.replicate k .tableRead }
 slot (`pending` = a pick awaits its read), and nothing else touches the list of picks -/
 def wfFrom : Bool → List TOp → Bool
   | pending, [] => !pending
-  | false, .pick _ :: rest => wfFrom true rest
+  | false, .pick N :: rest => decide (0 < N) && wfFrom true rest
   | true, .ringRead :: rest => wfFrom false rest
   | false, .scanBegin _ :: rest => wfFrom false rest
   | false, .scanIter :: rest => wfFrom false rest
